@@ -20,6 +20,14 @@ def strip_comments(src):
             j = n if j == -1 else j + 2
             out.append(re.sub(r'[^\n]', ' ', src[i:j]))
             i = j
+        elif c == "'" and src[i + 1:i + 2] == '\\':
+            j = src.find("'", i + 2)
+            j = n if j == -1 else j + 1
+            out.append("' '" + ' ' * (j - i - 3))
+            i = j
+        elif c == "'" and src[i + 2:i + 3] == "'":
+            out.append("' '")
+            i += 3
         elif c == '"':
             j = i + 1
             while j < n and src[j] != '"':
